@@ -896,7 +896,7 @@ func genCase(t *rapid.T) Case {
 	case "Search":
 		c.A = rapid.IntRange(-1, universe+1).Draw(t, "item")
 	case "MinK":
-		c.A = rapid.SampledFrom([]int{0, 1, n - 1, n, n + 1, 3}).Draw(t, "k")
+		c.A = rapid.SampledFrom([]int{0, 1, n - 1, n, n + 1, 3, math.MaxInt, math.MaxInt - 1}).Draw(t, "k") // huge k: "no limit"
 		if c.A < 0 {
 			c.A = 0
 		}
